@@ -345,6 +345,17 @@ def shrinks(spec, viol):
                     yield s
 
 
+def harden(spec):
+    """the same job with every simulated run on the ASan+UBSan build"""
+    s = copy.deepcopy(spec)
+    for r in s['runs']:
+        if not r['world'].get('p_preempt'):
+            r['variant'] = 'asan'
+    if not any(r['variant'] == 'asan' for r in s['runs']) and s['runs']:
+        s['runs'][0]['variant'] = 'asan'; s['runs'][0]['world']['p_preempt'] = 0
+    return s
+
+
 def make_explicit(spec, results):
     """freeze the schedules actually taken into explicit decision lists (replay does not depend on PRNG code)"""
     s = copy.deepcopy(spec)
